@@ -269,6 +269,9 @@ impl<'tokens> Parser<'tokens> {
     }
 
     pub(crate) fn bump(&mut self) {
+        // the sink skips trivia before adding a token, so a bump must never consume trivia
+        // (e.g. the second bump of `. (` in `parse_cast`)
+        self.skip_trivia();
         self.clear_expected_syntaxes();
         self.events.push(Some(Event::AddToken));
         self.token_idx += 1;
